@@ -85,7 +85,8 @@ WITNESS(should_enable);
 	w_req[4] == (t)->meta->require->value[4] && w_req[5] == (t)->meta->require->value[5] && \
 	w_req[6] == (t)->meta->require->value[6] && w_req[7] == (t)->meta->require->value[7] && \
 	w_req[8] == (t)->meta->require->value[8] && w_req[9] == (t)->meta->require->value[9] && \
-	w_req[10] == (t)->meta->require->value[10] && w_req[11] == (t)->meta->require->value[11])))
+	w_req[10] == (t)->meta->require->value[10] && w_req[11] == (t)->meta->require->value[11] && \
+	VP_BIND_INT(w_req))))
 
 /* Verdict oracle, for the group of the CALLER (model_version_probe).  There the call is
  * replaced by this contract with the witness flag OFF: the clause "ret == se_expected"
@@ -181,6 +182,7 @@ static int mvp_expected(int version_wf, int n, int v1, int v2, int v3)
 }
 
 int w_nthreads, w_version_wf;
+int w_v0, w_v1, w_v2;              /* the oracle's verdict per stream, for the native replay driver */
 WITNESS(model_version_probe);
 
 int c_model_version_probe(struct model_spec *spec, struct emu *emu)
@@ -196,6 +198,7 @@ __CPROVER_requires(w_version_wf == mvp_version_wf(spec))
 __CPROVER_requires(!w_version_wf || (g_se_have0 == mvp_version_num(spec, 0) && g_se_have1 == mvp_version_num(spec, 1)))
 __CPROVER_requires(g_se_t[0] == T1(emu) && g_se_t[1] == T2(emu) && g_se_t[2] == T3(emu))
 __CPROVER_requires(VERDICT_OK(g_se_v[0]) && VERDICT_OK(g_se_v[1]) && VERDICT_OK(g_se_v[2]))
+__CPROVER_requires(w_v0 == g_se_v[0] && w_v1 == g_se_v[1] && w_v2 == g_se_v[2])
 __CPROVER_assigns(__CPROVER_errno, DIAG_FRAME, MODEL_FRAME, g_died)
 __CPROVER_ensures(__CPROVER_return_value == mvp_expected(w_version_wf, w_nthreads, g_se_v[0], g_se_v[1], g_se_v[2]))
 __CPROVER_ensures(__CPROVER_return_value >= 0 || g_err > __CPROVER_old(g_err))
